@@ -484,6 +484,14 @@ func resumeDomain(lines []string) []string {
 			st.mu.Unlock()
 			out = append(out, verdict)
 			continue
+		case "cancelresume":
+			// cancelresume <batch> <n> <k>: a resumable subscription over the real SQLite store (streaming in batches of
+			// <batch>, 0 = unbatched) whose catch-up context is cancelled while event k of n is being handled; positions
+			// live in an explicit subscription store that ignores contexts. Whatever the driver notices of the
+			// cancellation: a catch-up that returns nil has delivered everything, a failed one is retried, and over
+			// retries, one live event and a restart the subscription is handed every event exactly once, in log order
+			out = append(out, cancelResume(atoi(f[1]), atoi(f[2]), atoi(f[3])))
+			continue
 		case "restart":
 			out = append(out, "restart")
 		default:
@@ -526,6 +534,64 @@ func resumeDomain(lines []string) []string {
 	}
 	out = append(out, "log "+strings.Join(parts, ","), fmt.Sprintf("nops %d", rc.ps.nops))
 	return out
+}
+
+func cancelResume(batch, n, k int) string {
+	dir, _ := os.MkdirTemp("", "verifcancelresume")
+	defer os.RemoveAll(dir)
+	var opts []ebsql.Option
+	if batch > 0 {
+		opts = append(opts, ebsql.WithStreamBatchSize(batch))
+	}
+	st, err := ebsql.New(filepath.Join(dir, "db.sqlite"), opts...)
+	if err != nil {
+		return "!cancelresume store " + err.Error()
+	}
+	defer st.Close()
+	positions := eb.NewMemoryStore()
+	b1 := eb.New(eb.WithStore(st), eb.WithSubscriptionStore(positions))
+	for i := 1; i <= n; i++ {
+		eb.Publish(b1, mkRT1(i))
+		if i%3 == 0 {
+			eb.Publish(b1, mkRT2(1000+i))
+		}
+	}
+	var got []int
+	b2 := eb.New(eb.WithStore(st), eb.WithSubscriptionStore(positions))
+	ctx, cancel := context.WithCancel(context.Background())
+	defer cancel()
+	armed := true
+	h := func(e RT1) {
+		got = append(got, faithful(e.R, e.Opt, e.M))
+		if armed && e.R == k {
+			armed = false
+			cancel()
+			time.Sleep(40 * time.Millisecond) // database/sql notices a cancellation asynchronously
+		}
+	}
+	err = eb.SubscribeWithReplay(ctx, b2, "cr", h)
+	if err == nil && len(got) != n {
+		return fmt.Sprintf("!cancelresume catch-up cancelled at event %d of %d returned nil after delivering %s", k, n, showNatList(got))
+	}
+	for tries := 0; err != nil && tries < 3; tries++ {
+		err = eb.SubscribeWithReplay(context.Background(), b2, "cr", h)
+	}
+	if err != nil {
+		return "!cancelresume retry keeps failing: " + err.Error()
+	}
+	eb.Publish(b2, mkRT1(n+1))
+	b3 := eb.New(eb.WithStore(st), eb.WithSubscriptionStore(positions))
+	if err := eb.SubscribeWithReplay(context.Background(), b3, "cr", h); err != nil {
+		return "!cancelresume after restart: " + err.Error()
+	}
+	want := make([]int, n+1)
+	for i := range want {
+		want[i] = i + 1
+	}
+	if !reflect.DeepEqual(got, want) {
+		return fmt.Sprintf("!cancelresume batch=%d: events 1..%d were handed to the subscription as %s", batch, n+1, showNatList(got))
+	}
+	return "cancelresume ok"
 }
 
 func init() { domains["resume"] = resumeDomain }
